@@ -53,9 +53,27 @@ def has_projection(q):
     return q[0] == 'c' and any(a[0] != 't' or has_projection(a[1]) for a in q[2])
 
 
+def _nested_generic_under_contra(tb, q, contra=False):
+    """does q contain a parameterized argument in a contravariant position (declared `in` or `in` projection)?"""
+    if q[0] != 'c' or not q[2]:
+        return False
+    for (pn, var, b), a in zip(tb.cls[q[1]].params, q[2]):
+        if a[0] == '*':
+            continue
+        c = contra or var == 'in' or a[0] == 'in'
+        if a[1][0] == 'c' and a[1][2]:
+            if c or any(x[0] == 'in' for x in a[1][2]):
+                return True
+            if _nested_generic_under_contra(tb, a[1], c):
+                return True
+    return False
+
+
 def subtype_search_shape(tb, q):
     if has_dependent_param(tb, q):
         return 'query instantiates a class with a dependent parameter (T2 : T1)'
+    if _nested_generic_under_contra(tb, q):
+        return 'query nests a parameterized argument in a contravariant position (declared in / in-projection)'
     return 'other query: ' + query_shape(tb, q)
 
 
@@ -134,6 +152,11 @@ def check_table(sk, lang, tier, found, stats, cap):
                     if concrete_only and rconv.has_bare_constructor(t):
                         rec(found, 'unusable-result', 'find_subtypes', 'bare constructor for ' + query_shape(tb, q),
                             sk, lang, q, flags, trace, 'returned %s' % (t,))
+                        continue
+                    if rconv.has_bare_constructor(t):
+                        # (only when concrete types were not requested) a bare constructor nested in an argument:
+                        # the reference relation does not apply to it
+                        stats['results_with_bare_constructor_unjudged'] = stats.get('results_with_bare_constructor_unjudged', 0) + 1
                         continue
                     if not below(tb, t, q, 'may'):
                         rec(found, 'result-not-a-subtype', 'find_subtypes', subtype_search_shape(tb, q),
@@ -234,8 +257,8 @@ def run(tier, seed, jobs):
     sks, rejected = universe.skeletons('quick')      # thorough: the whole quick skeleton list (59 tables)
     if tier == 'quick':
         sks = universe.quick_core(sks)     # fixed selection of the quick skeleton list
-    cap = 400 if tier == 'quick' else 1000
-    langs = ('kotlin',) if tier == 'quick' else ('kotlin', 'java')
+    cap = 400 if tier == 'quick' else 800
+    langs = ('kotlin',)
     n = len(sks)
     step = 1
     tasks = [(list(range(i, min(n, i + step))), lang, tier, cap) for lang in langs for i in range(0, n, step)]
